@@ -1,4 +1,24 @@
 from props.client_props import gen_c07
-PROP = {"id": "C07", "stages": [{"name": "client", "target": "h_client", "gen": gen_c07, "shard": 12}], "trivial_tags": [],
+
+from props.e2egen import *
+from props.e2egen import line as eline
+
+def gen_e2e(ctx):
+    """refused transfers inside TLS sessions (and plain sessions over real sockets), all four methods"""
+    rng = ctx["rng"]
+    noop = "noop@" + R(b"200 ok")
+    for ver in (13, 12):
+        for tls in (1, 0):
+            for mode in "pa":
+                for rfc in (0, 1):
+                    c = cfg_str(mode=mode, rfc=rfc, ver=ver, tls=tls, prop="C07")
+                    for code in (550, 450, 425, 553):
+                        ops = [connect(tls=bool(tls)), get(mode, rfc, main=code), noop, get(mode, rfc), "put:STOR:%s:g1.100@%s/%s" % (H(b"f"), setup(mode, rfc), R(b"%d no" % code)), noop,
+                               "list@" + "/".join([R(b"%d no" % code)]), noop, put(mode, rfc), "disc:1@" + R(b"221 bye")]
+                        yield eline(c, ops)
+    ctx["scopes"].append("refusal of the transfer command / of the set-up command with 550, 450, 425, 553 x TLS 1.2 / 1.3 / plain x four methods, interleaved with accepted transfers")
+
+PROP = {"id": "C07", "stages": [{"name": "client", "target": "h_client", "gen": gen_c07, "shard": 12},
+                   {"name": "e2e", "target": "h_e2e", "gen": gen_e2e, "shard": 4}], "trivial_tags": [],
         "rule": 'every negative code of a 13-code list x {set-up, main command} x {download, upload, listing} x four methods, each followed by a normal operation, plus random histories interleaving refused and accepted operations; recording sink/source, descriptor table, returned replies, unread bytes, lockstep of the next call.',
         "assumptions": ["in-memory control transport (a socket_base subclass) stands in for the TCP control socket; data connections are real loopback TCP", "oracle values (read sizes, kernel-chosen ports, connect results) are taken from the implementation run"]}
